@@ -15,8 +15,9 @@ A1T = ("Request-level engines rely on A1 (handlers hold the AppState mutex for t
        "simulated threads. Scheduling points are lock operations only; E5 prices are on a 0.25 grid. Sampling, not proof.")
 
 A3 = ("The broker talks to the server only through the harness's SimClient (the UistClient trait is the seam; per request "
-      "the future is eager, lazy or Pending-delayed, and insert_order requests can be lost with Err returned); the reqwest "
-      "client and real sockets are outside the simulation. Errors from tick / fetch_quotes / now are not injected. "
+      "the future is eager, lazy or Pending-delayed; insert_order and tick requests can be lost, tick and fetch_quotes responses can be lost, "
+      "each with Err returned to the broker); the reqwest client and real sockets are outside the simulation. Errors from now are not injected "
+      "(the SUT unwraps them). Trades of a tick whose own response was lost are unknowable to any broker and are accounted as such. "
       "The holdings-map iteration order is scheduled through hook H2. Sampling, not proof.")
 
 CHECKS = {
